@@ -1,0 +1,13 @@
+//go:build verif
+
+package freelist
+
+import "github.com/ipld/go-storethehash/store/types"
+
+// VerifPool returns a copy of the unflushed freelist entries. Compiled only
+// with the "verif" build tag.
+func (cp *FreeList) VerifPool() []types.Block {
+	cp.poolLk.RLock()
+	defer cp.poolLk.RUnlock()
+	return append([]types.Block(nil), cp.blockPool...)
+}
